@@ -115,6 +115,7 @@ fn replay(args: &[String]) -> i32 {
     yvcommon::util::quiet_panics();
     let variants = opt_usize(args, "--variants", 2);
     let mutants = opt_usize(args, "--mutants", 0);
+    let mut_every = opt_usize(args, "--mut-every", 1).max(1);
     let mut mut_out: Option<Box<dyn Write>> = opt(args, "--mut-out").map(|p| {
         Box::new(std::io::BufWriter::new(std::fs::File::create(p).expect("create --mut-out"))) as Box<dyn Write>
     });
@@ -193,7 +194,7 @@ fn replay(args: &[String]) -> i32 {
             }
         }
         // impl -> spec: mutations of the derivation, judged by Trace_Syntax
-        if let Some(mo) = mut_out.as_mut() {
+        if let Some(mo) = mut_out.as_mut().filter(|_| ln % mut_every == 0) {
             let mut rng = StdRng::seed_from_u64(s ^ ((ln as u64) << 8) ^ 0xBEEF);
             for m in 0..mutants {
                 // concretise: sep -> `;` or newline, lb -> nothing or newline
